@@ -511,6 +511,48 @@ func VH_C03_ReplacementLit() { vhC03(vhDefReplacementLit()) }
 
 func VH_C03_NonASCIINames() { vhC03In(vhDefNonASCIINames(), vhInputASCII()) }
 
+// VH_C04_TextScanner: the default (text/scanner based) lexer on bytes from an
+// alphabet of letters, digits, quotes, comments, blanks and line breaks: when
+// lexing succeeds, values are the input at their offsets, offsets increase,
+// EOF sits at the end, and line / column are those of the offset.
+func VH_C04_TextScanner() {
+	alphabet := []byte{'a', '1', ' ', '\n', '"', '/', '*', '.', '+', '\''}
+	n := vChoose("len", vhMaxInput+1)
+	in := vString("in", n)
+	for i := 0; i < n; i++ {
+		ok := false
+		for _, c := range alphabet {
+			ok = vOr(ok, in[i] == c)
+		}
+		vAssume(ok)
+	}
+	lex, lerr := TextScannerLexer.Lex("f", strings.NewReader(in))
+	vAssert(lerr == nil, "C04: the text/scanner definition refuses the input")
+	toks, err := ConsumeAll(lex)
+	if err != nil {
+		vReach("error")
+		return
+	}
+	vReach("ok")
+	end := 0
+	for i, t := range toks {
+		off := t.Pos.Offset
+		vAssert(off >= end, "C04: tokens overlap or go backwards")
+		vAssert(off+len(t.Value) <= len(in), "C04: token extends beyond the input")
+		vAssert(in[off:off+len(t.Value)] == t.Value, "C04: token value is not the input at its offset")
+		line, col := vhSpecPos(in, off)
+		vAssert(t.Pos.Line == line && t.Pos.Column == col, "C04: wrong line or column")
+		vAssert(t.Pos.Filename == "f", "C04: wrong filename")
+		if i < len(toks)-1 {
+			vAssert(!t.EOF() && len(t.Value) > 0, "C04: EOF or an empty token before the end")
+		}
+		end = off + len(t.Value)
+	}
+	last := toks[len(toks)-1]
+	vAssert(last.EOF(), "C04: last token is not EOF")
+	vAssert(last.Pos.Offset == len(in), "C04: EOF is not positioned at the end of the input")
+}
+
 func VH_C04_CaselessNames() { vhC04In(vhDefCaselessNames(), vhInputASCII()) }
 
 func VH_C03_CaselessNames() { vhC03In(vhDefCaselessNames(), vhInputASCII()) }
